@@ -54,7 +54,8 @@ NCHUNK = 32
 def bounds(tier):
   if tier == 'quick':
     return {'plans': [['full', 2, 2], ['mid', 3, 1], ['small', 4, 1]]}
-  return {'plans': [['full', 3, 1], ['mid', 3, 2], ['small', 5, 1]]}
+  return {'plans': [['full', 3, 1], ['mid', 3, 2], ['small', 4, 1],
+                    ['small', 5, 1]]}
 
 
 def units(tier, seed):
@@ -501,7 +502,7 @@ def run_unit(unit, tier, seed):
     return res
   _, menu, n, nl, k = unit
   ks, byname = _kinds(menu)
-  leaves = LEAVES if seed % 2 == 0 else [CONST_TUPLE, 'L1']
+  leaves = LEAVES if seed % 2 == 0 else ['M1', CONST_TUPLE]
   for idx, shape in enumerate(shapes.all_shapes(ks, n, nl)):
     if idx % NCHUNK != k:
       continue
